@@ -226,6 +226,9 @@ pub fn with_aml(t: &Term, k: &mut dyn FnMut(&dyn Aml)) {
                     assert!(r.is_err(), "Arg7/Local8 accepted as a package element");
                 }
                 with_aml(e, &mut |x| pb.add_element(x));
+                if i == 0 {
+                    peek(&pb); // a builder may be serialised before it is complete
+                }
             }
             if es.len() == 255 {
                 // the 256th element is refused (C18); the builder still holds its 255
@@ -316,8 +319,30 @@ pub fn with_aml(t: &Term, k: &mut dyn FnMut(&dyn Aml)) {
 }
 
 /// serialise through the crate into a Vec sink
+/// A sink that only implements the mandatory method and keeps nothing.
+pub struct NullSink;
+impl acpi_tables::AmlSink for NullSink {
+    fn byte(&mut self, _: u8) {}
+}
+
+/// serialise and discard: an object is allowed to be serialised any number of times
+pub fn peek(a: &dyn Aml) {
+    a.to_aml_bytes(&mut NullSink);
+}
+
+/// Serialises the object three times (discarded, kept, kept): every oracle that judges emitted
+/// bytes thereby judges an object that has been serialised before. If the two kept outputs
+/// differ (C14's subject) the later one is returned, so a structural oracle sees it too.
 pub fn emit(t: &Term) -> Vec<u8> {
     let mut out = Vec::new();
-    with_aml(t, &mut |o| o.to_aml_bytes(&mut out));
+    let mut again = Vec::new();
+    with_aml(t, &mut |o| {
+        peek(o);
+        o.to_aml_bytes(&mut out);
+        o.to_aml_bytes(&mut again);
+    });
+    if again != out {
+        return again;
+    }
     out
 }
